@@ -471,6 +471,18 @@ class DocSync:
                     logger.more("Skipped keys: {}".format(", ".join(self.skipped_keys)))
 
 
+def _ignore_excluded(exclude):
+    """Return an ``ignore`` callable for copytree that skips names matching exclude."""
+    if not exclude:
+        return None
+    patterns = list(exclude) if isinstance(exclude, list) else [exclude]
+
+    def _ignore(path, names):
+        return [fn for fn in names if any(re.match(p, fn) for p in patterns)]
+
+    return _ignore
+
+
 def _sync_job_workspaces(
     src, dst, strategy, exclude, copy, copytree, recursive=True, deep=False, subdir=""
 ):
@@ -490,7 +502,7 @@ def _sync_job_workspaces(
         if os.path.isfile(fn_src):
             copy(fn_src, fn_dst)
         elif recursive:
-            copytree(fn_src, fn_dst)
+            copytree(fn_src, fn_dst, ignore=_ignore_excluded(exclude))
         else:
             logger.warning(f"Skip directory '{fn_src}'.")
     for fn in diff.diff_files:
@@ -623,6 +635,8 @@ def sync_jobs(
         exclude = []
     elif not isinstance(exclude, list):
         exclude = [exclude]
+    else:
+        exclude = list(exclude)  # do not modify the caller's list
     exclude.append(src.FN_STATE_POINT)
     if doc_sync != DocSync.COPY:
         exclude.append(src.FN_DOCUMENT)
@@ -830,10 +844,15 @@ def sync_projects(
     logger.more(f"Synchronizing {N} jobs.")
     count = ddict(int)
 
+    ignore_excluded = _ignore_excluded(exclude)
+
     def _clone_or_sync(src_job):
         """Clone a job if it does not exist, or sync if it exists."""
         try:
-            destination.clone(src_job, copytree=proxy.copytree)
+            destination.clone(
+                src_job,
+                copytree=lambda s, d: proxy.copytree(s, d, ignore=ignore_excluded),
+            )
             logger.more(f"Cloned job '{src_job}'.")
             return 1
         except DestinationExistsError:
